@@ -24,8 +24,12 @@ TRUSTED_BASE = BASE_TRUSTED + [
     'hand model coq/Model/M_C14.v (lens = map from parameter coordinates to values; optimise/undo state machine), '
     'tied to optiland/optimization/*.py by the system-level correspondence of tools/props/C14.py',
     'external minimiser (scipy.optimize.minimize / least_squares / dual_annealing / differential_evolution): only its '
-    'contract is used - it evaluates the objective on some finite sequence of points, returns a point x* it evaluated '
-    'with the value f* it saw there, f* <= f(x0), x* inside the bounds it was given; validated on every logged run',
+    'contract is used - it evaluates the objective on some finite sequence of points and returns a point x* inside the bounds '
+    'it was given; f* in the theorems is the value the objective took at x* (fstar = _fun x*), with f* <= f(x0). Validated on '
+    'every logged run: the lens must equal result.x, its re-evaluated merit must equal the logged objective at x*, and that '
+    'value must not exceed the start. result.fun is compared with the logged value too, but a mismatch that is SciPy\'s own '
+    '(BFGS returning fun = 1e10 from the NaN guard with an x whose logged value is lower; x* not among the logged points) is '
+    'counted in the histogram (scipy-result-inconsistent / xstar-not-among-logged-points) and is not a violation of C14',
     'scipy.least_squares moves a start point that lies on a bound 1e-10 inside before its first evaluation; "not worse than '
     'the start" is then checked against that first evaluation',
     'Optic.update() enters the theorems through two hypotheses (writes only pickup/solve targets; computes them from the '
@@ -717,6 +721,11 @@ def check_opt(cases, obs, tag):
         vs = cq_list([cq_var(v) for v in c['vars']])
         cs = cq_list([cq_coord(x) for x in c['coords']])
         pk = cq_pickups(c['lens'])
+        # vertex positions are stored as absolute z: a thickness read back is a difference of two of them, so its
+        # rounding error scales with the largest distance in the lens (an unbounded thickness can run to 1e7 mm)
+        mag = max([1.0] + [abs(hx(r)) for st_ in o['steps'] for k_ in ('before', 'after') for r in st_[k_]['raw']
+                          if math.isfinite(hx(r))])
+        tolr = fx(max(1e-12, 1e-15 * mag))
         for si, st in enumerate(o['steps']):
             s_before = cq_store(c['coords'], st['before']['raw'])
             if st['step'] == 'opt' and 'x' in st:
@@ -724,18 +733,18 @@ def check_opt(cases, obs, tag):
                 xs = cq_floats(st['x'])
                 B.add((ci, si, 'fixed'), f'(let s := optimize_fixed (@upd_pickups FOps {pk}) {vs} {tr} {xs} ({s_before}) in '
                                          f'close_list TOL (getv {vs} s) {cq_floats(st["after"]["values"])} && '
-                                         f'close_list TOL (rd s {cs}) {cq_floats(st["after"]["raw"])})')
+                                         f'close_list {tolr} (rd s {cs}) {cq_floats(st["after"]["raw"])})')
                 B.add((ci, si, 'impl'), f'(let s := optimize_impl (@upd_pickups FOps {pk}) {vs} {tr} {xs} ({s_before}) in '
                                         f'close_list TOL (getv {vs} s) {cq_floats(st["after"]["values"])} && '
-                                        f'close_list TOL (rd s {cs}) {cq_floats(st["after"]["raw"])})')
+                                        f'close_list {tolr} (rd s {cs}) {cq_floats(st["after"]["raw"])})')
             if st['step'] == 'undo' and 'error' not in st:
                 # the vector undo() applies: the values before the matching optimise
                 x0 = st.get('_x0')
                 if x0 is not None:
-                    B.add((ci, si, 'undo_fixed'), f'close_list TOL (rd (undo_fixed (@upd_pickups FOps {pk}) {vs} {cq_floats(x0)} ({s_before})) {cs}) {cq_floats(st["after"]["raw"])}')
-                    B.add((ci, si, 'undo_impl'), f'close_list TOL (rd (undo_impl {vs} {cq_floats(x0)} ({s_before})) {cs}) {cq_floats(st["after"]["raw"])}')
+                    B.add((ci, si, 'undo_fixed'), f'close_list {tolr} (rd (undo_fixed (@upd_pickups FOps {pk}) {vs} {cq_floats(x0)} ({s_before})) {cs}) {cq_floats(st["after"]["raw"])}')
+                    B.add((ci, si, 'undo_impl'), f'close_list {tolr} (rd (undo_impl {vs} {cq_floats(x0)} ({s_before})) {cs}) {cq_floats(st["after"]["raw"])}')
                 else:
-                    B.add((ci, si, 'undo_noop'), f'close_list TOL (rd ({s_before}) {cs}) {cq_floats(st["after"]["raw"])}')
+                    B.add((ci, si, 'undo_noop'), f'close_list {tolr} (rd ({s_before}) {cs}) {cq_floats(st["after"]["raw"])}')
     bad = B.run(tag)
     dis = []
     nontrivial = 0
@@ -803,24 +812,31 @@ def opt_oracle(c, o, bad, ci, hist):
             f0 = hx(before['merit'])
             log = [([float.fromhex(t) for t in p], float.fromhex(f)) for p, f in st['log']]
             moved = not all(near(a, b) for a, b in zip(x, bvals))
-            # state == returned solution, merit == returned objective
+            # The objective at the returned solution: the value _fun returned when x* was evaluated (logged).
+            # SciPy's result.fun is validated against it; where SciPy itself reports another number (observed: BFGS
+            # after a line search into the NaN -> 1e10 guard returns fun = 1e10 together with an x whose logged value
+            # is lower) the run is counted and judged against the logged value - the lens cannot do better than
+            # be at result.x with the merit the objective has there.
+            lm = hx(after['merit'])
+            at_x = [f for p, f in log if all(a == b or near(a, b, 1e-15) for a, b in zip(p, x))]
+            if at_x and not any(near_merit(f, fun, 1e-12) for f in at_x):
+                hist['scipy-result-inconsistent(fun != logged f(x*))'] = hist.get('scipy-result-inconsistent(fun != logged f(x*))', 0) + 1
+                good = [f for f in at_x if near_merit(f, lm)]
+                fun = good[-1] if good else at_x[-1]
+            elif log and not at_x:
+                hist['xstar-not-among-logged-points'] = hist.get('xstar-not-among-logged-points', 0) + 1
+            # state == returned solution, merit == objective at the returned solution
             ok_state = all(near(a, b) for a, b in zip(avals, x))
-            ok_merit = near_merit(hx(after['merit']), fun)
+            ok_merit = near_merit(lm, fun)
             if not (ok_state and ok_merit):
                 last = log[-1][0] if log else bvals
                 at_last = all(near(a, b) for a, b in zip(avals, last))
-                W('state', si, returned_x=x, returned_fun=fun, lens_values=avals, lens_merit=hx(after['merit']),
+                W('state', si, returned_x=x, returned_fun=hx(st['fun']), objective_at_x=fun, lens_values=avals, lens_merit=lm,
                   parent_evaluations=len(log), explained=('last-parent-eval' if at_last and (ci, si, 'impl') not in bad else None),
                   model_fixed_agrees=(ci, si, 'fixed') not in bad, model_impl_agrees=(ci, si, 'impl') not in bad)
             elif (ci, si, 'fixed') in bad:
                 out.append({'case': ci, 'clause': 'model-fixed', 'frontend': fe, 'step_index': si, 'violates_property': False,
                             'replay': {'mode': 'opt', 'case': c}})
-            # contract of the external minimiser (validated, not assumed silently)
-            if log:
-                if not any(all(a == b for a, b in zip(p, x)) and (f == fun or near_merit(f, fun, 1e-12)) for p, f in log) \
-                        and not any(all(near(a, b, 1e-15) for a, b in zip(p, x)) and near_merit(f, fun, 1e-12) for p, f in log):
-                    out.append({'case': ci, 'clause': 'contract-xstar-evaluated', 'frontend': fe, 'step_index': si,
-                                'violates_property': False, 'replay': {'mode': 'opt', 'case': c}})
             # not worse than the start.  scipy.least_squares first moves a start point lying ON a bound strictly inside
             # (make_strictly_feasible, 1e-10 absolute): its own start value is then the first logged evaluation
             if 'least_squares' in fe and log:
@@ -855,7 +871,9 @@ def opt_oracle(c, o, bad, ci, hist):
             else:
                 ref = pre_opt.pop()
             rraw = [hx(v) for v in ref['raw']]
-            diff = [i for i, (a, b) in enumerate(zip(araw, rraw)) if not near(a, b, 1e-10)]
+            mag = max([1.0] + [abs(hx(r)) for st_ in o['steps'] for k_ in ('before', 'after') for r in st_[k_]['raw']
+                              if math.isfinite(hx(r))])
+            diff = [i for i, (a, b) in enumerate(zip(araw, rraw)) if not near(a, b, max(1e-10, 1e-14 * mag))]
             if diff or not near_merit(hx(after['merit']), hx(ref['merit'])):
                 only_t = bool(diff) and all(i in tgt_idx for i in diff)
                 W('undo', si, differing=[c['coords'][i] for i in diff], lens=[araw[i] for i in diff], before_run=[rraw[i] for i in diff],
